@@ -75,6 +75,7 @@ pub fn shard_main(prop: &str, registry: &[Entry]) {
         let bad = Arc::new(Mutex::new(None));
         let bad2 = bad.clone();
         let inputs2 = inputs.clone();
+        hrt::real::IN_SCHEDULER.store(true, Ordering::Relaxed);
         shuttle::replay(
             move || {
                 let res = run_threads(f, &inputs2);
@@ -161,6 +162,7 @@ pub fn shard_main(prop: &str, registry: &[Entry]) {
             let mut config = shuttle::Config::new();
             config.failure_persistence = shuttle::FailurePersistence::File(Some(sdir.clone()));
             config.silence_warnings = true;
+            hrt::real::IN_SCHEDULER.store(true, Ordering::Relaxed);
             let res = std::panic::catch_unwind(std::panic::AssertUnwindSafe(|| {
                 let scheduler = shuttle::scheduler::DfsScheduler::new(None, false);
                 let runner = shuttle::Runner::new(scheduler, config);
@@ -176,6 +178,7 @@ pub fn shard_main(prop: &str, registry: &[Entry]) {
                     }
                 });
             }));
+            hrt::real::IN_SCHEDULER.store(false, Ordering::Relaxed);
             let schedule_file = std::fs::read_dir(&sdir).ok().and_then(|mut d| d.next()).and_then(|e| e.ok()).map(|e| e.path());
             let schedule_text = schedule_file.as_ref().and_then(|p| std::fs::read_to_string(p).ok()).unwrap_or_default();
             let _ = std::fs::remove_dir_all(&sdir);
